@@ -59,7 +59,11 @@ type AtomPlan struct {
 	Committee bool `json:"committee,omitempty"`
 }
 
-var faultNames = [...]string{"ABORT", "THROW", "K.fail", "K.abort", "call-missing-method", "call-missing-contract", "ASSERT-false", "K.putFail"}
+var faultNames = [...]string{"ABORT", "THROW", "K.fail", "K.abort", "call-missing-method", "call-missing-contract", "ASSERT-false", "K.putFail",
+	"try{GAS.transfer->K.onPayment throws}", "try{K.fail}finally{ABORT}", "try{K.fail}finally{K.abort}"}
+
+// pendingFault: the fault kinds that end the execution while an exception is still being unwound
+func pendingFault(kind int) bool { return kind%len(faultNames) >= 8 }
 
 func drawC04(rt *rapid.T, p *Plan, tier string) *Plan {
 	p.Blocks = drawBlocks(rt, 3, 10, p.Proto.P2PSig)
@@ -222,8 +226,59 @@ func (r *run) emitFault(w *nio.BinWriter, kind int) string {
 		emit.Opcodes(w, opcode.PUSHF, opcode.ASSERT)
 	case 7:
 		appCallDrop(w, k, "putFail", kKeys[1], kVals[2])
+	case 8:
+		// try { GAS.transfer(signer, K, 1, "throw") } catch { }: the payment callback made by the native contract throws
+		body := nio.NewBufBinWriter()
+		emit.AppCall(body.BinWriter, nativehashes.GasToken, "transfer", callflag.All, r.prod.kr.acctHash(r.plan.Atom.Signer), k, int64(1), "throw")
+		emit.Opcodes(body.BinWriter, opcode.DROP)
+		emitTry(w, body.Bytes(), []byte{byte(opcode.DROP)}, nil)
+	case 9, 10:
+		// try { K.fail() } finally { ABORT / K.abort() }: the execution dies inside a finally block that runs for a
+		// pending exception
+		body := nio.NewBufBinWriter()
+		appCallDrop(body.BinWriter, k, "fail")
+		fin := nio.NewBufBinWriter()
+		if kind%len(faultNames) == 9 {
+			emit.Opcodes(fin.BinWriter, opcode.ABORT)
+		} else {
+			appCallDrop(fin.BinWriter, k, "abort")
+		}
+		emitTry(w, body.Bytes(), nil, fin.Bytes())
 	}
 	return faultNames[kind%len(faultNames)]
+}
+
+// emitTry emits try { body } catch { catch } finally { finally } with one-byte offsets (catch / finally may be nil).
+func emitTry(w *nio.BinWriter, body, catch, finally []byte) {
+	const tryLen, endTryLen = 3, 2
+	var catchOff, finOff, afterCatch int
+	pos := tryLen + len(body) + endTryLen
+	if catch != nil {
+		catchOff = pos
+		pos += len(catch) + endTryLen
+	}
+	afterCatch = pos
+	if finally != nil {
+		finOff = pos
+		pos += len(finally) + 1 // ENDFINALLY
+	}
+	end := pos
+	if end > 120 {
+		sim.Harnessf("try block too long for one-byte offsets: %d", end)
+	}
+	emit.Instruction(w, opcode.TRY, []byte{byte(catchOff), byte(finOff)})
+	w.WriteBytes(body)
+	// ENDTRY jumps to the end of the whole construct (the finally block, if any, runs first)
+	endTarget := end
+	emit.Instruction(w, opcode.ENDTRY, []byte{byte(endTarget - (tryLen + len(body)))})
+	if catch != nil {
+		w.WriteBytes(catch)
+		emit.Instruction(w, opcode.ENDTRY, []byte{byte(endTarget - (afterCatch - endTryLen))})
+	}
+	if finally != nil {
+		w.WriteBytes(finally)
+		emit.Opcodes(w, opcode.ENDFINALLY)
+	}
 }
 
 // rawTx builds a signed transaction with explicit fees.
@@ -363,6 +418,7 @@ func (r *run) twinBlocks(T *Node, x, y *transaction.Transaction, extra []*transa
 		for _, e := range extra[split:] {
 			txs = append(txs, e)
 		}
+		txs = append(txs, r.afterX...)
 		return txs
 	}
 	if err := r.P.BC.VerifyTx(x); err != nil {
@@ -432,6 +488,44 @@ func (r *run) twinBlocks(T *Node, x, y *transaction.Transaction, extra []*transa
 
 func abortScript() []byte { return []byte{byte(opcode.ABORT)} }
 
+// witnessTxs: halting transactions of an account other than the experiment's signer.
+func (r *run) witnessTxs(signer neotest.SingleSigner) []*transaction.Transaction {
+	p := r.prod
+	other := p.kr.acct(r.plan.Atom.Signer + 1)
+	k0, k1 := p.khash[0], p.khash[1]
+	var scripts [][]byte
+	// K0.tryCall(K1.put): a successful call made from a try block
+	scripts = append(scripts, callScript(k0, "tryCall", k1, "put", []any{kKeys[2], kVals[1]}))
+	// entry script: try { K0.put } finally { K1.ev }
+	body := nio.NewBufBinWriter()
+	appCallDrop(body.BinWriter, k0, "put", kKeys[3], kVals[2])
+	fin := nio.NewBufBinWriter()
+	appCallDrop(fin.BinWriter, k1, "ev", kVals[3])
+	w := nio.NewBufBinWriter()
+	emitTry(w.BinWriter, body.Bytes(), nil, fin.Bytes())
+	emit.Opcodes(w.BinWriter, opcode.RET)
+	scripts = append(scripts, w.Bytes())
+	// a payment to a contract: the native token calls back
+	scripts = append(scripts, callScript(nativehashes.GasToken, "transfer", other.ScriptHash(), k1, int64(3), nil))
+	var txs []*transaction.Transaction
+	for _, sc := range scripts {
+		p.nonce++
+		tx := transaction.New(sc, 5_00000000)
+		tx.Nonce = p.nonce
+		tx.ValidUntilBlock = r.P.BC.BlockHeight() + 2
+		tx.NetworkFee = atomNetFee
+		tx.Signers = []transaction.Signer{{Account: other.ScriptHash(), Scopes: transaction.Global}}
+		if err := other.SignTx(r.P.BC.GetConfig().Magic, tx); err != nil {
+			sim.Harnessf("sign: %v", err)
+		}
+		if r.P.BC.VerifyTx(tx) == nil {
+			txs = append(txs, tx)
+		}
+	}
+	r.out.Probes["atom_witness_txs_after_x"] += len(txs)
+	return txs
+}
+
 // atomFault: ABORT/THROW/failing call at position k of a generated script.
 func (r *run) atomFault(T *Node, signer neotest.SingleSigner, extra []*transaction.Transaction) {
 	ap := r.plan.Atom
@@ -442,7 +536,13 @@ func (r *run) atomFault(T *Node, signer neotest.SingleSigner, extra []*transacti
 	y := r.rawTx(T, abortScript(), signer, sys, atomNetFee, r.prod.nonce)
 	r.out.Faults["fault_at_position"]++
 	r.out.Faults["fault/"+faultNames[ap.Fault%len(faultNames)]]++
+	if pendingFault(ap.Fault) {
+		// the block goes on with transactions of another account whose SUCCESSFUL effects sit behind try blocks,
+		// finally blocks and native callbacks: nothing of the failed neighbour may reach them
+		r.afterX = r.witnessTxs(signer)
+	}
 	r.twinBlocks(T, x, y, extra, "fault@"+fmt.Sprint(ap.FaultAt)+" "+desc, true)
+	r.afterX = nil
 }
 
 // atomGas: the same halting script re-run with its system fee cut at arbitrary charge points.
